@@ -160,6 +160,26 @@ def check_referrer(path, ev, comp_map, case, tags, feats=FEATS, full=True,
                             f"map {comp_map.tolist()})", feat=feat,
                             pat=pat[0], second_pass=pi >= len(pats))
                         break
+                # what a caller does with a returned array is the caller's
+                # business: the next read still shows the origin's data
+                try:
+                    for arr in (obj[:], np.asarray(obj)):
+                        if isinstance(arr, np.ndarray) and arr.size \
+                                and arr.flags.writeable:
+                            arr[...] = arr.max() + 1 if arr.dtype != bool \
+                                else ~arr
+                    if not gen.arrays_equal(obj[:], exp_arr):
+                        bad(FB + ":BasinProxyFeature.__getitem__",
+                            "wrong-data",
+                            f"{name}: after the caller modified a returned "
+                            f"array in place, the feature reads "
+                            f"{np.asarray(obj[:]).tolist()!r:.200}",
+                            feat=feat, pat="after-caller-edit")
+                except BaseException as e:
+                    bad(FB + ":BasinProxyFeature.__getitem__", "exception",
+                        f"{name} re-read after caller edit: "
+                        f"{type(e).__name__}: {e}", feat=feat,
+                        exc=type(e).__name__, pat="after-caller-edit")
                 if feat not in ("trace",) and hasattr(obj, "__len__"):
                     try:
                         if len(obj) != n:
